@@ -15,18 +15,22 @@ Definition can_take (caps : list conn) (nfds : N) (c : conn) : bool := (nfds =? 
 
 Inductive soutput :=
 | SOSignal (rcpts : list conn)
+| SOOwn (code : N) (rcpts : list conn)
 | SOReply (r : sreply)
 | SODelivered (rcpts : list conn)
 | SOSignals (l : list (bytes * list conn)).
 
-Fixpoint spec_release_all (ns : names) (b : sbus) (unique : bytes) (l : list bytes) : names * list (bytes * list conn) :=
+Fixpoint spec_release_all (ns : names) (b : sbus) (c : conn) (unique : bytes) (l : list bytes) : names * list (bytes * list conn) :=
   match l with
   | [] => (ns, [])
   | n :: rest =>
-      let ns' := filter (fun p => negb (bytes_eqb (fst p) n)) ns in
-      let rc := spec_recipients ns' b None None (name_owner_changed n unique []) in
-      let (ns'', out) := spec_release_all ns' b unique rest in
-      (ns'', (n, rc) :: out)
+      match release_one ns c unique n with
+      | (ns', None) => spec_release_all ns' b c unique rest
+      | (ns', Some sig) =>
+          let rc := spec_recipients ns' b None None sig in
+          let (ns'', out) := spec_release_all ns' b c unique rest in
+          (ns'', (n, rc) :: out)
+      end
   end.
 
 Definition spec_step (limit : N) (w : sworld) (e : event) : sworld * soutput :=
@@ -36,8 +40,14 @@ Definition spec_step (limit : N) (w : sworld) (e : event) : sworld * soutput :=
       (mkSWorld (sw_bus w) ns (if fdcap then c :: sw_caps w else sw_caps w),
        SOSignal (spec_recipients ns (sw_bus w) None None (name_owner_changed unique [] unique)))
   | EvOwn c name =>
-      let ns := sw_names w ++ [(name, c)] in
-      (mkSWorld (sw_bus w) ns (sw_caps w), SOSignal (spec_recipients ns (sw_bus w) None None (name_owner_changed name [] (unique_of (sw_names w) c))))
+      let '(code, ns, sig) := own_plan (sw_names w) c name in
+      (mkSWorld (sw_bus w) ns (sw_caps w),
+       SOOwn code (match sig with Some s => spec_recipients ns (sw_bus w) None None s | None => [] end))
+  | EvRelease c name =>
+      let code := release_code (sw_names w) c name in
+      let (ns, sig) := release_one (sw_names w) c (unique_of (sw_names w) c) name in
+      (mkSWorld (sw_bus w) ns (sw_caps w),
+       SOOwn code (match sig with Some s => spec_recipients ns (sw_bus w) None None s | None => [] end))
   | EvAdd c text => let (b, r) := spec_add limit true (sw_bus w) c text in (mkSWorld b (sw_names w) (sw_caps w), SOReply r)
   | EvRemove c text => let (b, r) := spec_remove (sw_bus w) c text in (mkSWorld b (sw_names w) (sw_caps w), SOReply r)
   | EvSend c m nfds =>
@@ -57,6 +67,6 @@ Definition spec_step (limit : N) (w : sworld) (e : event) : sworld * soutput :=
   | EvDisconnect c =>
       let unique := unique_of (sw_names w) c in
       let b := spec_disconnect (sw_bus w) c in
-      let (ns, l) := spec_release_all (sw_names w) b unique (released_names (sw_names w) c) in
+      let (ns, l) := spec_release_all (sw_names w) b c unique (released_names (sw_names w) c) in
       (mkSWorld b ns (sw_caps w), SOSignals l)
   end.
